@@ -54,6 +54,7 @@ def script_strategy():
         "trace": st.booleans(),
         "evtrace": st.booleans(),
         "hooks": st.booleans(),
+        "peek": st.sampled_from([0, 1, 1, 3, 50]),            # heap preview (peek_next(n) + find_events) at every pause; 0: never
         "pauses": st.lists(st.integers(1, 30), max_size=4),
         "hookbps": st.lists(st.tuples(st.integers(1, 20), bp_strategy()).map(list), max_size=2),   # breakpoints armed from inside an event hook
         "bps": st.lists(bp_strategy(), max_size=3),
@@ -66,6 +67,7 @@ def stash_strategy(tier):
     flush, and a script that pauses often (so many resumes happen while Event objects are held outside the heap)."""
     dense = st.fixed_dictionaries({
         "control": st.just(True), "trace": st.booleans(), "evtrace": st.just(False), "hooks": st.booleans(),
+        "peek": st.sampled_from([0, 1, 50]),
         "pauses": st.lists(st.integers(1, 25), min_size=2, max_size=8), "hookbps": st.just([]),
         "bps": st.lists(bp_strategy(), max_size=1),
         "actions": st.lists(st.one_of(st.tuples(st.just("step"), st.integers(1, 3)).map(list), st.just(["resume"])), min_size=4, max_size=16),
@@ -313,6 +315,25 @@ def execute_observe(obl):
                         r.add(f"{P}/{obl}/breakpoint-set", f"registered after pause: {real_left}; model: {model.bps}")
                         break
                     ids[:] = [(i, spec) for i, spec in ids if i in live]
+                    # ---- heap preview: read-only, sorted, and its first live entry is what the plain run processes next
+                    npk = int(obs.get("peek", 0) or 0)
+                    if npk:
+                        labels.append("peek")
+                        everything = ctl.find_events(lambda e: True)
+                        pk = ctl.peek_next(npk)
+                        keys = [(e.time.nanoseconds, e._sort_index if hasattr(e, "_sort_index") else 0) for e in pk]
+                        if len(pk) != min(npk, len(everything)) or keys != sorted(keys) \
+                                or any(all(e is not x for x in everything) for e in pk):
+                            r.add(f"{P}/{obl}/peek-next-shape", f"peek_next({npk}) -> {len(pk)} events at {[k_[0] for k_ in keys][:8]}; "
+                                                             f"{len(everything)} pending")
+                        if k_real < len(P_ev):
+                            full = ctl.peek_next(len(everything) + 1)
+                            live_ev = [e for e in full if not e.cancelled and e.time.nanoseconds >= st_.current_time.nanoseconds]
+                            if live_ev and live_ev[0].time.nanoseconds != P_ev[k_real][0]:
+                                r.add(f"{P}/{obl}/peek-next-not-next", f"after {k_real} events the first live previewed event is due at "
+                                      f"{live_ev[0].time.nanoseconds}, the plain run processes t={P_ev[k_real][0]} next")
+                            if any(e.cancelled for e in full) and live_ev:
+                                labels.append("peek-with-cancelled-pending")
                     # ---- next command
                     guard += 1
                     ran = False
